@@ -214,6 +214,265 @@ def _ranges_file():
     return path
 
 
+# ------------------------------------------------------------------------------------------------
+# flag data-flow: flags.py constants, the small-island / max_summits logic of estimate_lmfit_parinfo, the fit outcome
+# flags of _fit_island, the component flag word of result_to_components, the PRIORIZED / FIXED2PSF marking of
+# _refit_islands, and the "not fit" mask of fitting.errors.
+#
+# py2lean's int mode has no bit operators; `_wrap_bits` adds `|` and `&` on naturals (Lean `|||`, `&&&`).  The
+# slicer normalises, without touching the arithmetic: `flags.X` -> the parameter `X`; `a <= b <= c` -> `a <= b and
+# b <= c`; an integer used as a truth value (`x & F` in a test, operands of `or`) -> `(...) != 0`; `not <int>` ->
+# `<int> == 0`; names that stand for things outside the model (`min(data.shape)`, `result.errorbars`, …) -> parameters.
+# A block is refused (UNTRANSLATABLE -> hand fallback) when a statement that is dropped assigns the tracked variable.
+
+import py2lean as _p2l
+
+
+def _wrap_bits(orig):
+    def expr_int(self, node):
+        if isinstance(node, ast.BinOp) and isinstance(node.op, (ast.BitOr, ast.BitAnd)):
+            a, ta, da = self.expr(node.left)
+            b, tb, db = self.expr(node.right)
+            if ta != 'N' or tb != 'N':
+                raise _p2l.Untranslatable('bit operator on non-naturals')
+            return f"({a} {'|||' if isinstance(node.op, ast.BitOr) else '&&&'} {b})", 'N', da | db
+        return orig(self, node)
+    expr_int._c03bits = True
+    return expr_int
+
+
+if not getattr(_p2l.Translator.expr_int, '_c03bits', False):
+    _p2l.Translator.expr_int = _wrap_bits(_p2l.Translator.expr_int)
+
+
+class _FlagNorm(ast.NodeTransformer):
+    """flags.X -> X ; chained comparisons -> and ; renames given as {unparsed expr: name}"""
+
+    def __init__(self, renames=None):
+        self.renames = renames or {}
+
+    def visit(self, node):
+        if isinstance(node, ast.expr):
+            key = ast.unparse(node)
+            if key in self.renames:
+                return ast.copy_location(ast.Name(id=self.renames[key], ctx=ast.Load()), node)
+        return super().visit(node)
+
+    def visit_Attribute(self, node):
+        self.generic_visit(node)
+        if isinstance(node.value, ast.Name) and node.value.id == 'flags':
+            return ast.copy_location(ast.Name(id=node.attr, ctx=node.ctx), node)
+        return node
+
+    def visit_Compare(self, node):
+        self.generic_visit(node)
+        if len(node.ops) > 1:
+            parts, left = [], node.left
+            for op, right in zip(node.ops, node.comparators):
+                parts.append(ast.Compare(left=left, ops=[op], comparators=[right]))
+                left = right
+            return ast.BoolOp(op=ast.And(), values=parts)
+        return node
+
+
+def _truth(e):
+    """an expression used as a condition: comparisons / and / or / not stay, an integer becomes `!= 0`"""
+    if isinstance(e, ast.BoolOp):
+        return ast.BoolOp(op=e.op, values=[_truth(v) for v in e.values])
+    if isinstance(e, ast.UnaryOp) and isinstance(e.op, ast.Not):
+        inner = e.operand
+        if isinstance(inner, (ast.Compare, ast.BoolOp)):
+            raise ValueError('negated comparison')       # not needed by the anchored code: refuse
+        return ast.Compare(left=inner, ops=[ast.Eq()], comparators=[ast.Constant(value=0)])
+    if isinstance(e, ast.Compare):
+        # `x & F > 0` parses as x & (F > 0) in nobody's code but `(x & F) > 0` is fine as it is
+        return e
+    return ast.Compare(left=e, ops=[ast.NotEq()], comparators=[ast.Constant(value=0)])
+
+
+def _assigns_to(node, var):
+    for n in ast.walk(node):
+        if isinstance(n, ast.Assign) and any(ast.unparse(t) == var for t in n.targets):
+            return True
+        if isinstance(n, ast.AugAssign) and ast.unparse(n.target) == var:
+            return True
+    return False
+
+
+def _only(body, var):
+    """the statements of `body` that assign `var`; refuse if a dropped compound statement assigns it"""
+    keep = []
+    for st in body:
+        if isinstance(st, (ast.Assign, ast.AugAssign)):
+            if _assigns_to(st, var):
+                keep.append(st)
+        elif _assigns_to(st, var):
+            raise ValueError(f'{var} assigned inside a statement the slice would drop')
+    return keep
+
+
+def _cond(test, body, var, norm, orelse=None):
+    b = _only(body, var)
+    o = _only(orelse, var) if orelse else []
+    return ast.If(test=_truth(norm.visit(test)), body=[norm.visit(x) for x in b] or [ast.Pass()],
+                  orelse=[norm.visit(x) for x in o])
+
+
+def _rename_target(st, old, new):
+    st = ast.parse(ast.unparse(st).replace(old, new)).body[0]
+    return st
+
+
+def _slice_flags(repo):
+    fns = []
+    try:    # flags.py constants
+        ftree = ast.parse(open(os.path.join(repo, 'AegeanTools/flags.py')).read())
+        body = [st for st in ftree.body if isinstance(st, ast.Assign) and len(st.targets) == 1 and isinstance(st.targets[0], ast.Name)
+                and st.targets[0].id.isupper() and isinstance(st.value, ast.Constant) and isinstance(st.value.value, int)]
+        assert body
+        fns.append(_mkfn('flag_consts', [], body))
+    except Exception:  # noqa: BLE001
+        pass
+    try:
+        tree = ast.parse(open(os.path.join(repo, _SF)).read())
+    except Exception:  # noqa: BLE001
+        tree = None
+    try:    # estimate_lmfit_parinfo: island-level flag
+        f = _fn(tree, 'estimate_lmfit_parinfo')
+        norm = _FlagNorm({'min(data.shape)': 'min_shape'})
+        ifs = [n for n in f.body if isinstance(n, ast.If)]
+        small = [n for n in ifs if 'non_nan_pix' in ast.unparse(n.test)][0]
+        tiny = [n for n in ifs if 'min(data.shape)' in ast.unparse(n.test)][0]
+        assert small.lineno < tiny.lineno and not _assigns_to(ast.Module(body=tiny.orelse, type_ignores=[]), 'is_flag')
+        between = [n for n in f.body if small.lineno < n.lineno < tiny.lineno]
+        assert not any(_assigns_to(n, 'is_flag') for n in between)
+
+        def chain(n):     # if / elif / else on is_flag only
+            orelse = n.orelse
+            if len(orelse) == 1 and isinstance(orelse[0], ast.If):
+                o = [chain(orelse[0])]
+            else:
+                o = [norm.visit(x) for x in _only(orelse, 'is_flag')]
+            return ast.If(test=_truth(norm.visit(n.test)), body=[norm.visit(x) for x in _only(n.body, 'is_flag')] or [ast.Pass()],
+                          orelse=o)
+        body = [_assign('is_flag', ast.Constant(value=0)), chain(small), _cond(tiny.test, tiny.body, 'is_flag', norm)]
+        fns.append(_mkfn('estimate_is_flag', ['non_nan_pix', 'min_shape', 'FIXED2PSF', 'FITERRSMALL'], body))
+    except Exception:  # noqa: BLE001
+        pass
+    try:    # estimate_lmfit_parinfo: per-summit flag when max_summits is given
+        f = _fn(tree, 'estimate_lmfit_parinfo')
+        loop = [n for n in f.body if isinstance(n, ast.For) and 'summit' in ast.unparse(n.target)][0]
+        norm = _FlagNorm()
+        init = [n for n in loop.body if isinstance(n, ast.Assign) and ast.unparse(n.targets[0]) == 'summit_flag'][0]
+        assert ast.unparse(init.value) == 'is_flag'
+        mx = [n for n in loop.body if isinstance(n, ast.If) and 'max_summits' in ast.unparse(n.test)][0]
+        assert ast.unparse(mx.test) == 'max_summits is not None' and ast.unparse(mx.orelse[0]) == 'maxxed = False'
+        cmp_ = mx.body[0].value
+        assert isinstance(mx.body[0], ast.Assign) and ast.unparse(mx.body[0].targets[0]) == 'maxxed' and isinstance(cmp_, ast.Compare)
+        use = [n for n in loop.body if isinstance(n, ast.If) and ast.unparse(n.test) == 'maxxed'][0]
+        others = [n for n in loop.body if n not in (init, use) and _assigns_to(n, 'summit_flag')]
+        assert not others and not use.orelse
+        body = [_assign('summit_flag', ast.Name(id='is_flag', ctx=ast.Load())), _cond(cmp_, use.body, 'summit_flag', norm)]
+        fns.append(_mkfn('summit_flag_slice', ['is_flag', 'i', 'max_summits', 'NOTFIT', 'FIXED2PSF'], body))
+    except Exception:  # noqa: BLE001
+        pass
+    try:    # _fit_island: fit decision and outcome
+        f = _fn(tree, '_fit_island')
+        norm = _FlagNorm({'result.errorbars': 'errorbars', 'result.success': 'success'})
+        dec = [n for n in f.body if isinstance(n, ast.If) and 'non_blank_pix' in ast.unparse(n.test)][0]
+        inner = []
+        for st in dec.orelse:
+            if isinstance(st, ast.If) and _assigns_to(st, 'is_flag'):
+                assert not st.orelse
+                inner.append(_cond(st.test, st.body, 'is_flag', norm))
+            elif not isinstance(st, (ast.Assign, ast.AugAssign, ast.Expr, ast.Try)) and _assigns_to(st, 'is_flag'):
+                raise ValueError('is_flag assigned in a compound statement')
+            elif isinstance(st, ast.Try):
+                # the repaired tree wraps do_lmfit: the handler returns early with is_flag | FITERR; the body must not touch is_flag
+                assert not _assigns_to(ast.Module(body=st.body, type_ignores=[]), 'is_flag')
+        top = ast.If(test=_truth(norm.visit(dec.test)), body=[norm.visit(x) for x in _only(dec.body, 'is_flag')] or [ast.Pass()],
+                     orelse=inner)
+        fns.append(_mkfn('fit_is_flag', ['non_blank_pix', 'free_vars', 'errorbars', 'success', 'NOTFIT', 'FITERR'],
+                         [_assign('is_flag', ast.Constant(value=0)), top]))
+    except Exception:  # noqa: BLE001
+        pass
+    try:    # result_to_components: the component's flag word
+        f = _fn(tree, 'result_to_components')
+        loop = [n for n in f.body if isinstance(n, ast.For)][0]
+        sts = [n for n in loop.body if _assigns_to(n, 'src_flags')]
+        norm = _FlagNorm()
+        body = []
+        for st in sts:
+            if isinstance(st, ast.Assign):
+                assert ast.unparse(st.value) == 'is_flag'
+                body.append(st)
+            elif isinstance(st, ast.AugAssign):
+                assert isinstance(st.op, ast.BitOr) and 'flags' in ast.unparse(st.value) and 'model[' in ast.unparse(st.value)
+                body.append(ast.AugAssign(target=st.target, op=st.op, value=ast.Name(id='model_flags', ctx=ast.Load())))
+            elif isinstance(st, ast.If):
+                assert 'isfinite' in ast.unparse(st.test) and isinstance(st.test, ast.UnaryOp) and not st.orelse
+                body.append(ast.If(test=ast.Compare(left=ast.Name(id='wcs_finite', ctx=ast.Load()), ops=[ast.Eq()],
+                                                    comparators=[ast.Constant(value=0)]),
+                                   body=[norm.visit(x) for x in _only(st.body, 'src_flags')], orelse=[]))
+            else:
+                raise ValueError('src_flags in an unexpected statement')
+        fns.append(_mkfn('component_flags', ['is_flag', 'model_flags', 'wcs_finite', 'WCSERR'], body))
+    except Exception:  # noqa: BLE001
+        pass
+    try:    # _refit_islands: marking of refitted rows
+        f = _fn(tree, '_refit_islands')
+        loop = [n for n in ast.walk(f) if isinstance(n, ast.For) and ast.unparse(n.iter).startswith('zip(new_src')][0]
+        obj = loop.target.elts[0].id
+        norm = _FlagNorm()
+        body = []
+        for st in loop.body:
+            if isinstance(st, ast.AugAssign) and ast.unparse(st.target) == obj + '.flags':
+                body.append(_rename_target(norm.visit(st), obj + '.flags', 'row_flags'))
+            elif isinstance(st, ast.If) and _assigns_to(st, obj + '.flags'):
+                assert not st.orelse
+                body.append(ast.If(test=_truth(norm.visit(st.test)),
+                                   body=[_rename_target(norm.visit(x), obj + '.flags', 'row_flags') for x in _only(st.body, obj + '.flags')],
+                                   orelse=[]))
+            elif _assigns_to(st, obj + '.flags'):
+                raise ValueError('flags assigned in an unexpected statement')
+        assert body
+        fns.append(_mkfn('refit_mark', ['row_flags', 'stage', 'PRIORIZED', 'FIXED2PSF'], body))
+    except Exception:  # noqa: BLE001
+        pass
+    try:    # fitting.errors: which flag bits mean "no uncertainties"
+        etree = ast.parse(open(os.path.join(repo, 'AegeanTools/fitting.py')).read())
+        f = _fn(etree, 'errors')
+        first = [n for n in f.body if isinstance(n, ast.If)][0]
+        t = first.test
+        assert isinstance(t, ast.BinOp) and isinstance(t.op, ast.BitAnd) and ast.unparse(t.left) == 'source.flags'
+        assert isinstance(first.body[-1], ast.Return)
+        fns.append(_mkfn('err_mask_slice', ['NOTFIT', 'FITERR'], [_assign('err_mask', _FlagNorm().visit(t.right))]))
+    except Exception:  # noqa: BLE001
+        pass
+    mod = ast.Module(body=fns, type_ignores=[])
+    ast.fix_missing_locations(mod)
+    return ast.unparse(mod) + "\n"
+
+
+def _flags_file():
+    fd, path = tempfile.mkstemp(prefix='verif-C03-flags-', suffix='.py')
+    with os.fdopen(fd, 'w') as f:
+        f.write("# sliced from flags.py / source_finder.py / fitting.py by translator/targets/C03.py\n" + _slice_flags(_REPO))
+    atexit.register(lambda p=path: os.path.exists(p) and os.unlink(p))
+    return path
+
+
+_FF = _flags_file()
+
+
+def _int(func, params, var, ln):
+    sig = ' '.join(f'({p} : Nat)' for p in params)
+    return dict(file=_FF, func=func, mode='int', params={p: 'N' for p in params}, subst={}, outputs=[(var, ln)], all_params=params,
+                fallback={ln: f'def {ln} {sig} : Nat := Aegean.Model.C03.{ln}Hand ' + ' '.join(params)})
+
+
+_FLAGNAMES = ['FITERRSMALL', 'FITERR', 'FIXED2PSF', 'FIXEDCIRCULAR', 'NOTFIT', 'WCSERR', 'PRIORIZED']
+
 _RF = _ranges_file()
 _M = 'Aegean.Model.C03'
 
@@ -250,6 +509,13 @@ TARGETS = [
           dict(raWrapBound='raWrapBoundHand ra', raWrapNext='raWrapNextHand ra')),
     _real('int_flux_slice', _IF, [('int_flux', 'intFluxG')], dict(intFluxG='intFluxGHand peak_flux sx sy CC2FHWM pi_ beam_area_pix')),
     _real('beam_area_slice', ['a', 'b', 'pi_'], [('beam_area', 'beamAreaG')], dict(beamAreaG='beamAreaGHand a b pi_')),
+] + [_int('flag_consts', [], n, 'flag' + n) for n in _FLAGNAMES] + [
+    _int('estimate_is_flag', ['non_nan_pix', 'min_shape', 'FIXED2PSF', 'FITERRSMALL'], 'is_flag', 'estimateIsFlagG'),
+    _int('summit_flag_slice', ['is_flag', 'i', 'max_summits', 'NOTFIT', 'FIXED2PSF'], 'summit_flag', 'summitFlagG'),
+    _int('fit_is_flag', ['non_blank_pix', 'free_vars', 'errorbars', 'success', 'NOTFIT', 'FITERR'], 'is_flag', 'fitIsFlagG'),
+    _int('component_flags', ['is_flag', 'model_flags', 'wcs_finite', 'WCSERR'], 'src_flags', 'componentFlagsG'),
+    _int('refit_mark', ['row_flags', 'stage', 'PRIORIZED', 'FIXED2PSF'], 'row_flags', 'refitMarkG'),
+    _int('err_mask_slice', ['NOTFIT', 'FITERR'], 'err_mask', 'errMaskG'),
 ] + [
     dict(file=_RF, func='cmp_slice', mode='int', params={}, subst={}, outputs=[(var, ln)],
          fallback={ln: f'def {ln} : Nat := {_M}.{ln}Hand'}, all_params=[])
